@@ -37,6 +37,8 @@ func Zero(typ types.Type) string {
 			return `""`
 		case types.Bool:
 			return "false"
+		case types.UnsafePointer, types.UntypedNil:
+			return "nil"
 		default:
 			return "0"
 		}
